@@ -525,6 +525,15 @@ class Interp:
                     continue
             if t is not None and t[0] == "cmp":
                 _, op, a, b = t
+                if (op == "Eq" and truth) or (op == "Ne" and not truth):
+                    # equality holds: every pair of known bit forms agrees
+                    okb = True
+                    for x, y in zip(bits_of(a), bits_of(b)):
+                        if x != TOPBIT and y != TOPBIT and not s2.add_con(x ^ y):
+                            okb = False
+                            break
+                    if not okb:
+                        continue
                 a2 = self.apply_ranges(s2, a)
                 b2 = self.apply_ranges(s2, b)
                 r = refine_cmp(op, a2, b2, truth)
